@@ -56,7 +56,7 @@ def main():
                     ctx.undischarged.append({'theorem': t, 'axioms': ax})
                 else:
                     ctx.discharged.append(t)
-            for hit in core.forbidden_tokens():
+            for hit in core.forbidden_tokens(prop):
                 ctx.undischarged.append({'forbidden_token': hit})
         else:
             ctx.undischarged = [{'theorem': t, 'reason': 'build broken after regeneration'} for t in ctx.theorems]
